@@ -29,6 +29,60 @@ impl Prop for C07 {
     }
     fn gen(&self, seed: u64, tier: Tier) -> Case {
         let mut r = Rng::new(seed);
+        if r.chance(150) {
+            // 'loop' population (executor B): the real processing-loop thread, an input feeder and a
+            // TCP-client task under the seeded scheduler with a virtual clock
+            // (dynamic macro replay fast-forwards the recorded delays inside one tick_ms call: the
+            // recorder's tick clock and the stepper's millisecond clock then disagree by design)
+            let o = GenOpts { feats: feat::ALL_RUNTIME & !feat::DELAY & !feat::ZIPPY & !feat::DYNMACRO, max_keys: 6, max_layers: 3, max_depth: 2, hostile: false };
+            // the final silence of a loop run is capped at 6 s: configurations whose longest timer is
+            // longer than that (a 65535 ms chord timeout...) cannot be judged at the end
+            let mut spec = gen_general(&mut r, &o);
+            for _ in 0..6 {
+                if quiescence_bound(&spec_text(&spec), &[]) <= 5_000 {
+                    break;
+                }
+                spec = gen_general(&mut r, &o);
+            }
+            let mut case = Case { prop: "C07".into(), seed, cfg: spec_text(&spec), files: spec.files.clone(), ..Default::default() };
+            let keys: Vec<u16> = spec.src.iter().map(|k| oscode_of(k)).filter(|c| *c != 0 && !is_wheel_code(*c)).collect();
+            let ho = HistOpts {
+                keys,
+                max_events: 20,
+                consistent: true,
+                // (OS repeat events are answered outside a tick; the recorder cannot place them)
+                repeats: false,
+                timeouts: spec.timeouts.clone(),
+                long_gap_permille: 80,
+                very_long_gap_permille: 0,
+                max_gap: 3_000,
+                vkeys: spec.vkeys.iter().map(|v| v.0.clone()).collect(),
+                vkey_permille: if r.chance(400) { 80 } else { 0 },
+                vkey_balanced: true,
+                layers: spec.layer_names(),
+                change_layer_permille: if r.chance(200) { 30 } else { 0 },
+                ..Default::default()
+            };
+            case.ops = gen_history(&mut r, &ho);
+            // every event is followed by at least 1 ms (the loop takes one event per iteration)
+            let mut ops2 = vec![];
+            for op in case.ops.drain(..) {
+                let is_gap = matches!(op, Op::Gap(_));
+                ops2.push(op);
+                if !is_gap {
+                    ops2.push(Op::Gap(1));
+                }
+            }
+            case.ops = ops2;
+            case.ops.push(Op::Gap(quiescence_bound(&case.cfg, &case.ops).min(6_000) as u32));
+            case.set("pop", "loop");
+            case.set("b_mode", *r.pick(&["strict", "strict", "jitter", "stall"]));
+            case.set("b_seed", r.next_u64());
+            case.set("min_cfg", 0);
+            case.set("min_gaps", 0);
+            case.set("min_ops", 0);
+            return case;
+        }
         if r.chance(200) {
             // 'timers' population: every feature whose outcome depends on time that passes while
             // nothing else happens, probed with pauses around its threshold (the idle decision must
@@ -102,6 +156,9 @@ impl Prop for C07 {
     fn check(&self, case: &Case, want_sample: bool) -> RunOut {
         if !history_consistent(&case.ops) {
             return RunOut::skip("history-not-consistent");
+        }
+        if case.param("pop") == Some("loop") {
+            return check_loop(case, want_sample);
         }
         let mut a = match Stepper::new_filtered(&case.cfg, &case.files, Mode::Ticking) {
             Ok(s) => s,
@@ -194,4 +251,98 @@ impl Prop for C07 {
             "part 2 (real threaded loop vs stepper) is a separate population of this check (executor B)".into(),
         ]
     }
+}
+
+/// Part 2 of C07 (executor B): the real processing-loop thread.
+/// * strict mode (no jitter, ties resolved feeder-first): the loop's output must equal, tick for tick,
+///   what executor A in idle-blocking mode produces for the same history — the real loop (blocking
+///   recv, wake-up, one tick per elapsed ms, sleep) and the stepper's protocol are the same function.
+/// * jitter / stall modes (per-step cost up to 300 us, sleep overshoot; stalls of 2-40 ms): the loop
+///   must terminate when its channel closes, nobody may deadlock or panic, and after the final
+///   silence nothing may be left down at the OS.
+fn check_loop(case: &Case, want_sample: bool) -> RunOut {
+    use crate::exec_b::*;
+    let mode = case.param("b_mode").unwrap_or("strict").to_string();
+    let bseed = case.param_u64("b_seed").unwrap_or(1);
+    let sim = match mode.as_str() {
+        "strict" => kanata_verif_rt::SimCfg { seed: bseed, tape: Some(vec![]), max_steps: 20_000_000, ..Default::default() },
+        "jitter" => kanata_verif_rt::SimCfg { seed: bseed, cost_max_ns: 300_000, switch_permille: 200, sleep_overshoot_max_ns: 400_000, max_steps: 20_000_000, ..Default::default() },
+        _ => kanata_verif_rt::SimCfg { seed: bseed, cost_max_ns: 300_000, switch_permille: 200, stall_permille: 15, stall_min_ns: 2_000_000, stall_max_ns: 40_000_000, sleep_overshoot_max_ns: 400_000, max_steps: 20_000_000, ..Default::default() },
+    };
+    if !config_is_non_latching(&case.cfg) {
+        return RunOut::skip("config-latches-a-virtual-key");
+    }
+    // the loop thread is given 1 ms to reach its first blocking recv() before anything happens (a
+    // TCP operation racing with the start-up of the loop thread is a different, legitimate schedule)
+    let mut ops_b: Vec<Op> = vec![Op::Gap(1)];
+    ops_b.extend(case.ops.iter().cloned());
+    // in strict mode TCP-style operations are performed by the feeder itself at their scheduled time
+    // (the stepper applies them there); a separate TCP-client task runs in the jitter / stall modes
+    let b = match run_b(&case.cfg, &case.files, &ops_b, &BOpts { sim, tcp_task: mode != "strict", phase_us: 0 }) {
+        Ok(b) => b,
+        Err(e) if e.contains("simulation aborted") => {
+            let mut o = RunOut::pass();
+            o.set_fail("C07:loop-panicked", e, vec![]);
+            return o;
+        }
+        Err(_) => return RunOut::skip("parser-rejected"),
+    };
+    let mut o = RunOut::pass();
+    o.count("pop.loop", 1);
+    o.count(&format!("loop.mode.{mode}"), 1);
+    o.count("loop.scheduling-points", b.report.steps);
+    o.count("loop.task-switches", b.report.switches);
+    o.count("loop.stalls-injected", b.report.stalls);
+    o.count("loop.clock-jumps", b.report.clock_jumps);
+    o.sim_ms = b.end_ms.saturating_sub(1_000_000);
+    o.sig = b.report.schedule_hash ^ trace_sig(&b.outs);
+    o.nontrivial = !b.outs.is_empty();
+    if !b.report.panics.is_empty() {
+        o.set_fail("C07:loop-panicked", format!("{:?}", b.report.panics), vec![]);
+        return o;
+    }
+    if b.report.deadlock || b.report.leaked > 0 || b.report.overrun {
+        o.set_fail("C07:loop-did-not-terminate", format!("deadlock={} leaked tasks={} step overrun={} after the input channel was closed", b.report.deadlock, b.report.leaked, b.report.overrun), vec![]);
+        return o;
+    }
+    if mode == "strict" {
+        let mut a = match Stepper::new_filtered(&case.cfg, &case.files, Mode::Blocking) {
+            Ok(s) => s,
+            Err(_) => return RunOut::skip("parser-rejected"),
+        };
+        a.run_ops(&ops_b);
+        a.finish();
+        let ta = &a.trace.outs;
+        let same = ta.len() == b.outs.len() && ta.iter().zip(b.outs.iter()).all(|(x, y)| x.t == y.t && x.kind == y.kind && x.key == y.key);
+        if !same {
+            let i = ta.iter().zip(b.outs.iter()).position(|(x, y)| !(x.t == y.t && x.kind == y.kind && x.key == y.key)).unwrap_or(ta.len().min(b.outs.len()));
+            let f = |t: &Vec<OutEv>| outs_short(&t.iter().skip(i.saturating_sub(2)).take(8).cloned().collect::<Vec<_>>());
+            o.set_fail("C07:real-loop-differs-from-loop-protocol", format!("output #{i} differs: real loop thread [{}] stepper (idle-blocking protocol) [{}]; ops {}", f(&b.outs), f(ta), ops_short(&case.ops)), vec![]);
+            return o;
+        }
+        o.count("loop.strict-equal-to-stepper", 1);
+    } else if !b.down_at_end.is_empty() && quiescence_bound(&case.cfg, &case.ops) > 6_000 {
+        o.count("loop.end-state-not-judged-timer-longer-than-final-silence", 1);
+    } else if !b.down_at_end.is_empty() {
+        // under jitter the decisions may differ from the stepper's; the end state may not
+        let mut a = match Stepper::new_filtered(&case.cfg, &case.files, Mode::Blocking) {
+            Ok(s) => s,
+            Err(_) => return RunOut::skip("parser-rejected"),
+        };
+        a.run_ops(&ops_b);
+        a.finish();
+        if a.down_set().is_empty() {
+            let mut tags = vec![];
+            if b.custom_events_dropped > 0 {
+                tags.push("custom-events-collided".to_string());
+            }
+            o.set_fail("C07:loop-left-output-down", format!("mode {mode}: {:?} still down after the final silence although the jitter-free execution ends with nothing down ({} custom events dropped): {}", b.down_at_end, b.custom_events_dropped, outs_short(&b.outs)), tags);
+            return o;
+        }
+        o.count("loop.down-at-end-also-without-jitter", 1);
+    }
+    if want_sample {
+        o.sample = Some(sample_json(case, &b.outs, json!({"mode": mode, "steps": b.report.steps, "switches": b.report.switches, "stalls": b.report.stalls, "schedule_hash": format!("{:x}", b.report.schedule_hash)})));
+    }
+    o
 }
